@@ -127,7 +127,11 @@ def _constructed(idx, fi, stmts, ev=None):
 
 
 def decision_table(idx, rule):
-    fi = rule.func
+    return decision_table_of_function(idx, rule, rule.func)
+
+
+def decision_table_of_function(idx, rule, fi):
+    """decision table of the if/elif/match (or early-return) structure of `fi`: the Auto rule itself or the helper it delegates to"""
     d = Decision(rule)
     names = {}
     body = [s for s in fi.node.body if not (isinstance(s, ast.Expr) and isinstance(s.value, ast.Constant))]
@@ -151,12 +155,27 @@ def decision_table(idx, rule):
                 else:
                     if cur.orelse:
                         branches.append((ast.Constant(True), cur.orelse))
+                    elif all(any(isinstance(x, (ast.Return, ast.Raise)) for x in b_[-1:]) for _t, b_ in branches):
+                        # every branch leaves the function: the statements after the if are the final else
+                        rest = body[body.index(st) + 1:]
+                        if rest:
+                            branches.append((ast.Constant(True), rest))
                     break
         elif isinstance(st, ast.Match) and branches is None:
             branches = []
             for case in st.cases:
                 branches.append((("case", st.subject, case.pattern), case.body))
     if branches is None:
+        # `if T: ... return X` followed by more statements: the rest is the else branch
+        # (handled below); or the choice lives in a helper the rule calls: tabulate the helper instead
+        for st in body:
+            for c in [x for x in ast.walk(st) if isinstance(x, ast.Call)]:
+                r = idx.resolve_expr(fi.module, c.func, fi)
+                if r is not None and r.kind == "funcs" and getattr(r.val[-1], "rule", None) is None and r.val[-1].module is fi.module \
+                        and any(isinstance(x, (ast.If, ast.Match)) for x in r.val[-1].node.body):
+                    sub = decision_table_of_function(idx, rule, r.val[-1])
+                    if not sub.problems:
+                        return sub
         d.problems.append("no if/elif or match statement found in the Auto rule")
         return d
     # parameter names assigned in the branches are not atoms
